@@ -201,4 +201,7 @@ def check(model, rep):
                'singular values below %s of the largest are discarded: near-singular but full-rank platforms get a wrong Jacobian' % cut, line=c.lineno)
     rep.ob('R11.4', sp.module.relpath, 'SP overrides inverseJacobian and not jacobian', 'inverseJacobian' in sp.methods and 'jacobian' not in sp.methods,
            'SP must define exactly one of jacobian / inverseJacobian (the other is derived by pseudo-inverse)', qualname='SP', line=0)
-    from .c06 import check as _c06  # noqa: F401  (the statics table itself is decided under C06 R06.3)
+    # the statics table (forward = J^T @ wrench, inverse = pinv(J^T) @ forces; Body variants through jacobianBody): the same rule as C06 R06.3,
+    # decided here too because the platform's body-frame statics clause rests on it
+    from .c06 import statics_table
+    statics_table(model, rep, robot, 'R11.4')
